@@ -48,7 +48,8 @@ class ReaderUnit(corr.Unit):
                     win = 1 - win
                 vs = [v if rng.random() < 0.6 else rng.choice([0, 3.7, 11, 1.5]) for v in vs]
                 rows.append([(start + datetime.timedelta(minutes=mins * i)).isoformat(), tgt, win] + list(vs))
-            out.append({"start": start.isoformat(), "mins": mins, "nveh": nveh, "rows": rows, "obj_start": rng.choice([0, 0, -1, 30])})
+            out.append({"start": start.isoformat(), "mins": mins, "nveh": nveh, "rows": rows, "obj_start": rng.choice([0, 0, -1, 30]),
+                        "plain_time": rng.random() < 0.2})       # time column that is not ISO formatted: row i starts at start + i * step
         return out
 
     def run_impl(self, case):
@@ -59,8 +60,9 @@ class ReaderUnit(corr.Unit):
             header = ["timestamp", "schedule [kW]", "charge", "a", "b", "c", "d"] + names
             with open(os.path.join(tmp, "s.csv"), "w") as f:
                 f.write(", ".join(header) + "\n")
-                for r in case["rows"]:
-                    f.write(", ".join(str(x) for x in [r[0], r[1], r[2], 0, 0, 0, 0] + r[3:]) + "\n")
+                for i_, r in enumerate(case["rows"]):
+                    ts_ = ("step %d" % i_) if case.get("plain_time") else r[0]
+                    f.write(", ".join(str(x) for x in [ts_, r[1], r[2], 0, 0, 0, 0] + r[3:]) + "\n")
             start = datetime.datetime.fromisoformat(case["start"]) + datetime.timedelta(days=case["obj_start"])
             obj = {"column": "schedule [kW]", "start_time": start.isoformat(), "step_duration_s": case["mins"] * 60, "csv_file": "s.csv",
                    "grid_connector_id": "GC1", "individual": case["nveh"] > 0}
@@ -81,8 +83,10 @@ class ReaderUnit(corr.Unit):
     def emit(self, case, out):
         start = datetime.datetime.fromisoformat(case["start"]) + datetime.timedelta(days=case["obj_start"])
         rows = []
-        for r in case["rows"]:
+        for i_, r in enumerate(case["rows"]):
             st = datetime.datetime.fromisoformat(r[0])
+            if case.get("plain_time"):
+                st = start + datetime.timedelta(minutes=case["mins"] * i_)
             cand = (st - datetime.timedelta(days=2 if st.hour < 12 else 1)).replace(hour=9, minute=0, second=0)
             # the reader lists vehicles reversed: reversed(vehicle_names) with row[-1 - i]
             vs = list(reversed(r[3:]))
@@ -111,8 +115,10 @@ class ReaderUnit(corr.Unit):
         for e in out["evs"]:
             if e[2] > e[1]:
                 v.append(("C13/signal-after-start", "event %s is signalled after it starts: rows=%s" % (e, rows)))
-        for r in rows:
-            t = c07.us(datetime.datetime.fromisoformat(r[0]))
+        start_ = datetime.datetime.fromisoformat(case["start"]) + datetime.timedelta(days=case["obj_start"])
+        for i_, r in enumerate(rows):
+            st_ = start_ + datetime.timedelta(minutes=case["mins"] * i_) if case.get("plain_time") else datetime.datetime.fromisoformat(r[0])
+            t = c07.us(st_)
             tg = None
             vs = [None] * case["nveh"]
             for e in out["evs"]:
